@@ -53,7 +53,7 @@ class Worker(threading.Thread):
                     raise IOError("engine exited")
                 res = json.loads(line)
             except Exception as e:  # engine crash: report as unsupported, restart
-                res = {"job": job, "status": "unsupported", "unsupported": "engine process failed: %r" % (e,), "paths": 0, "steps": 0,
+                res = {"job": dict(job), "status": "unsupported", "unsupported": "engine process failed: %r" % (e,), "paths": 0, "steps": 0,
                        "violations": [], "queries": 0, "solver_ms": 0, "wall_ms": 0, "funcs": []}
                 try:
                     self.proc.kill()
@@ -78,9 +78,12 @@ def run_jobs(jobs):
     """Runs the jobs on up to NWORKERS engine processes; returns results in job order."""
     build_engine()
     q = queue.Queue()
+    smap = dict(x.split(":") for x in os.environ.get("VERIF_SOLVER_MAP", "").split(",") if ":" in x)
     for i, j in enumerate(jobs):
         j = dict(j)
         j["_i"] = i
+        if smap:
+            j["solver"] = smap.get(j.get("solver") or "z3", j.get("solver") or "z3")
         q.put(j)
     results, lock = [], threading.Lock()
     n = min(NWORKERS, max(1, len(jobs)))
